@@ -8,7 +8,7 @@ Local Open Scope Z_scope.
 
 (* conversion should never unfold the block function (it only affects the order in which the
    kernel unfolds constants, not what is provable) *)
-Strategy 1000 [chacha20_block_words chacha20_block aligned_block inner_block].
+Strategy 1000 [chacha20_block_words chacha20_block aligned_block inner_block poly1305_update poly1305_finish poly1305_init].
 
 (* ---------- the tag comparison loop looks at all n bytes ---------- *)
 Lemma fold_lor_zero : forall (l : list (N * N)) acc,
@@ -95,6 +95,11 @@ Qed.
 Lemma firstn_zeros k n : (k <= n)%nat -> firstn k (zeros n) = zeros k.
 Proof. intros H. unfold zeros. apply firstn_repeat'. exact H. Qed.
 
+Lemma poly1305_stream_5 pbuf k a b c d e :
+  poly1305_finish (poly1305_update (poly1305_update (poly1305_update (poly1305_update (poly1305_update
+    (poly1305_init pbuf k) a) b) c) d) e) = poly1305_stream pbuf k [a; b; c; d; e].
+Proof. unfold poly1305_stream. cbn [fold_left]. reflexivity. Qed.
+
 Lemma compute_tag_spec pbuf c key nonce aad ct :
   positioned c key nonce 0 -> length pbuf = 16%nat ->
   Z.of_nat (length aad) < 2 ^ 64 -> Z.of_nat (length ct) < 2 ^ 64 ->
@@ -109,16 +114,14 @@ Proof.
   set (pa := firstn ((16 - length aad mod 16) mod 16) (zeros 16)).
   set (pc := firstn ((16 - length ct mod 16) mod 16) (zeros 16)).
   set (ld := le_bytes 8 (wrapu64 (Z.of_nat (length aad))) ++ le_bytes 8 (wrapu64 (Z.of_nat (length ct)))).
-  change (poly1305_finish (poly1305_update (poly1305_update (poly1305_update (poly1305_update (poly1305_update
-            (poly1305_init pbuf otk) aad) pa) ct) pc) ld))
-    with (poly1305_stream pbuf otk [aad; pa; ct; pc; ld]).
+  rewrite poly1305_stream_5.
   rewrite poly1305_stream_eq_spec by exact Hpb.
   unfold aead_tag_spec. f_equal. cbn [concat]. rewrite app_nil_r.
   unfold aead_mac_data, pad16, pa, pc, ld.
   rewrite !firstn_zeros by (pose proof (Nat.mod_upper_bound (16 - length aad mod 16) 16 ltac:(lia));
                             pose proof (Nat.mod_upper_bound (16 - length ct mod 16) 16 ltac:(lia)); lia).
   rewrite !wrapu64_id by (unfold UINT64_MAX; change (2 ^ 64) with 18446744073709551616 in *; lia).
-  rewrite <- !app_assoc. reflexivity.
+  rewrite <- ?app_assoc. reflexivity.
 Qed.
 
 Lemma poly1305_spec_length key msg : length (poly1305_spec key msg) = 16%nat.
@@ -250,21 +253,34 @@ Proof.
   destruct (timingsafe_bcmp expected tag 16) eqn:Ecmp.
   - (* mismatch *)
     cbn [fst snd]. split; [|split].
-    + intros Heq. exfalso. assert (Hf' : false = true) by (rewrite <- Ecmp; apply Hcmp; rewrite Htag; symmetry; exact Heq). discriminate.
+    + intros Heq. exfalso. assert (Hfalse : true = false) by (apply Hcmp; rewrite Htag; symmetry; exact Heq). discriminate.
     + intros _. reflexivity.
     + eapply positioned_key_loaded. exact Hpos1.
   - (* tags equal *)
-    apply Hcmp in Ecmp.
+    assert (Heqt : expected = tag) by (apply Hcmp; reflexivity).
     destruct (chacha20_crypt c2 d1) as [p1 c3]. cbn [fst snd] in *.
     destruct (chacha20_crypt c3 d2) as [p2 c4]. cbn [fst snd] in *.
     split; [|split].
     + intros _. rewrite Hd in Hpt. fold pt in Hpt. rewrite <- Hpt.
       rewrite <- Hd1l, <- Hl1. rewrite firstn_exact_app, skipn_exact_app. reflexivity.
-    + intros Hne. exfalso. apply Hne. rewrite <- Htag. symmetry. exact Ecmp.
+    + intros Hne. exfalso. apply Hne. rewrite <- Htag. symmetry. exact Heqt.
     + exact Hkl4.
 Qed.
 
 (* ---------- round trip ---------- *)
+Lemma concat_map_length_const {A} (f : A -> list N) n : (forall x, length (f x) = n) ->
+  forall l, length (concat (map f l)) = (n * length l)%nat.
+Proof.
+  intros Hf. induction l as [|x l IH]; [cbn; lia|]. cbn [map concat length]. rewrite app_length, Hf, IH. lia.
+Qed.
+
+Lemma block_stream_length key ctr nonce K : length (le32_words key) = 8%nat -> length (le32_words nonce) = 3%nat ->
+  length (concat (map (fun i => chacha20_block key (ctr + Z.of_nat i) nonce) (seq 0 K))) = (64 * K)%nat.
+Proof.
+  intros Hk Hn. rewrite (concat_map_length_const _ 64), seq_length; [reflexivity|].
+  intros i. apply chacha20_block_length; assumption.
+Qed.
+
 Lemma chacha20_encrypt_length key ctr nonce msg :
   length (le32_words key) = 8%nat -> length (le32_words nonce) = 3%nat ->
   length (chacha20_encrypt key ctr nonce msg) = length msg.
@@ -272,11 +288,7 @@ Proof.
   intros Hk Hn. unfold chacha20_encrypt.
   rewrite (chacha20_encrypt_fuel_stream key nonce Hk Hn (blocks_needed (length msg))) by (try apply blocks_needed_ge; lia).
   rewrite xor_bytes_length.
-  assert (Hbl : forall K, length (concat (map (fun i => chacha20_block key (ctr + Z.of_nat i) nonce) (seq 0 K))) = (64 * K)%nat).
-  { intros K. generalize 0%nat. induction K as [|K IH]; intros s; [reflexivity|].
-    cbn [seq map concat]. rewrite app_length, IH.
-    unfold chacha20_block. rewrite block_words_length, !app_length, Hk, Hn. cbn [length]. lia. }
-  rewrite Hbl. pose proof (blocks_needed_ge (length msg)). lia.
+  rewrite block_stream_length by assumption. pose proof (blocks_needed_ge (length msg)). lia.
 Qed.
 
 Lemma chacha20_encrypt_involutive key ctr nonce msg :
@@ -291,11 +303,7 @@ Proof.
   unfold chacha20_encrypt.
   rewrite (chacha20_encrypt_fuel_stream key nonce Hk Hn K) by (try apply blocks_needed_ge; lia).
   apply xor_bytes_involutive.
-  assert (Hbl : forall K, length (concat (map (fun i => chacha20_block key (ctr + Z.of_nat i) nonce) (seq 0 K))) = (64 * K)%nat).
-  { intros K'. generalize 0%nat. induction K' as [|K' IH]; intros s; [reflexivity|].
-    cbn [seq map concat]. rewrite app_length, IH.
-    unfold chacha20_block. rewrite block_words_length, !app_length, Hk, Hn. cbn [length]. lia. }
-  rewrite Hbl. apply blocks_needed_ge.
+  rewrite block_stream_length by assumption. apply blocks_needed_ge.
 Qed.
 
 Lemma rfc_nonce_words nf ns : 0 <= nf < 2 ^ 32 -> 0 <= ns < 2 ^ 64 -> length (le32_words (rfc_nonce nf ns)) = 3%nat.
